@@ -131,3 +131,23 @@ package ledger
 //@   ensures err != nil ==> 0 <= idx && idx < len(p) && !wfPosting(p[idx]) && forall j int :: {p[j]} 0 <= j && j < idx ==> wfPosting(p[j])
 //@   loop 1:
 //@     invariant forall j int :: {p[j]} 0 <= j && j < i ==> wfPosting(p[j])
+
+// ---- log.go: decoding of client-supplied logs (import stream) must not panic (C38) -----------------------
+
+//@ define knownLogType(s string) bool = s == "SET_METADATA" || s == "NEW_TRANSACTION" || s == "REVERTED_TRANSACTION" || s == "DELETE_METADATA" || s == "INSERTED_SCHEMA"
+
+//@ func LogTypeFromString(logType string) (r LogType)
+//@   property C38
+//@   requires knownLogType(logType)
+
+//@ func (lt *LogType) UnmarshalJSON(data []byte) (err error)
+//@   property C38
+//@   modifies lt
+
+//@ func (s *SavedMetadata) UnmarshalJSON(data []byte) (err error)
+//@   property C38
+//@   modifies s
+
+//@ func (s *DeletedMetadata) UnmarshalJSON(data []byte) (err error)
+//@   property C38
+//@   modifies s
